@@ -472,10 +472,12 @@ theorem nodup_sweepQueue (s : State) (h : NoDup s) : NoDup (sweepQueue s) := by
     · exact hst
   · exact h
 
-theorem keys_mapUpd (l : List Proxy) :
-    (l.map fun x => { x with upd := false }).map (fun x => (x.pt, x.name)) = l.map fun x => (x.pt, x.name) := by
+theorem keys_mapUpd (l : List Proxy) (f : Proxy → Proxy) (hf : ∀ x, (f x).pt = x.pt ∧ (f x).name = x.name) :
+    (l.map f).map (fun x => (x.pt, x.name)) = l.map fun x => (x.pt, x.name) := by
   simp only [List.map_map]
-  rfl
+  apply List.map_congr_left
+  intro x _
+  simp only [Function.comp, (hf x).1, (hf x).2]
 
 theorem nodup_finishLoop (g : Graph) (s : State) (h : NoDup s) : NoDup (finishLoop g s) := by
   unfold finishLoop
@@ -497,7 +499,7 @@ theorem nodup_finishLoop (g : Graph) (s : State) (h : NoDup s) : NoDup (finishLo
   split
   · unfold NoDup keys at *
     simp only
-    rw [keys_mapUpd]; exact h4
+    rw [List.map_map]; exact h4
   · exact h4
 
 theorem keys_mapReset (l : List Proxy) (f : Proxy → Proxy) (hf : ∀ x, (f x).pt = x.pt ∧ (f x).name = x.name) :
